@@ -108,6 +108,8 @@ type gateClient struct {
 	mu      sync.Mutex
 	tokens  int
 	inRound bool
+	hold    chan struct{} // when set: the next page fetch parks here (ReadBegin / ReadEnd)
+	arrived chan struct{}
 }
 
 func (g *gateClient) LTXFiles(ctx context.Context, level int, seek ltx.TXID, useMetadata bool) (ltx.FileIterator, error) {
@@ -136,6 +138,14 @@ func (g *gateClient) LTXFiles(ctx context.Context, level int, seek ltx.TXID, use
 // A page fetch from a file that retention deleted fails for good; answer with an error the VFS does not retry
 // (os.ErrNotExist would be retried 6 times with growing delays before the same failure is reported).
 func (g *gateClient) OpenLTXFile(ctx context.Context, level int, minTXID, maxTXID ltx.TXID, offset, size int64) (io.ReadCloser, error) {
+	g.mu.Lock()
+	hold, arrived := g.hold, g.arrived
+	g.hold, g.arrived = nil, nil
+	g.mu.Unlock()
+	if hold != nil { // a ReadAt that has looked its element up: park before the data is fetched (and cached)
+		close(arrived)
+		<-hold
+	}
 	if fc, ok := g.ReplicaClient.(*file.ReplicaClient); ok {
 		if _, err := os.Stat(fc.LTXFilePath(level, minTXID, maxTXID)); os.IsNotExist(err) {
 			return nil, fmt.Errorf("verif: ltx file %d/%d-%d is gone", level, minTXID, maxTXID)
@@ -211,6 +221,8 @@ type drv struct {
 	plan    [][]int
 	ttRef   []int // reference captured when the time-travel view was built (later retention may make that restore impossible)
 	ttRefOK bool
+	rdHold  chan struct{}
+	rdDone  chan struct{}
 }
 
 func (d *drv) payload(n int) []byte {
@@ -462,6 +474,53 @@ func (d *drv) step(i int, st []any) (res string, obs bool) {
 			d.view = d.pos()
 		}
 		return res, true
+	case "PollQuiet": // a poll whose result is not read back (the cache keeps what the poll left in it)
+		if d.vf == nil || d.tt != 0 {
+			return "skip", false
+		}
+		res := d.pollOnce()
+		if !d.locked {
+			d.view = d.pos()
+		}
+		return res, false
+	case "ReadBegin": // ReadAt(page k) without a lock (as SQLite reads the header at open), parked between its lookup and its fetch
+		if d.vf == nil || d.rdDone != nil {
+			return "skip", false
+		}
+		pg := argInt(st, 1, 1)
+		hold, arrived, done := make(chan struct{}), make(chan struct{}), make(chan struct{})
+		d.gate.mu.Lock()
+		d.gate.hold, d.gate.arrived = hold, arrived
+		d.gate.mu.Unlock()
+		go func() {
+			buf := make([]byte, d.c.Cfg.PageSize)
+			d.vf.ReadAt(buf, int64(pg-1)*int64(d.c.Cfg.PageSize))
+			close(done)
+		}()
+		select {
+		case <-arrived:
+			d.rdHold, d.rdDone = hold, done
+			return "parked", false
+		case <-done: // served from the cache: nothing was fetched
+			d.gate.mu.Lock()
+			d.gate.hold, d.gate.arrived = nil, nil
+			d.gate.mu.Unlock()
+			return "hit", false
+		case <-time.After(5 * time.Second):
+			return "timeout", false
+		}
+	case "ReadEnd":
+		if d.rdDone == nil {
+			return "skip", false
+		}
+		close(d.rdHold)
+		select {
+		case <-d.rdDone:
+		case <-time.After(5 * time.Second):
+			return "timeout", false
+		}
+		d.rdHold, d.rdDone = nil, nil
+		return "ok", true
 	case "Lock":
 		if d.vf == nil || d.locked {
 			return "skip", false
